@@ -195,10 +195,10 @@ def _c03(name, prefix, unwind=4, timeout=1800, tiers=('quick', 'thorough')):
 
 PROPS['C03'] = {
     'assumptions': [
-        'Each adaptor (then, let_value, let_error, when_all, split, ensure_started, drop_value) is the real header code instantiated on a test leaf sender that completes INLINE in start() on a symbolic '
+        'Each adaptor (then, let_value, let_error, when_all, split, ensure_started, drop_value, drop_operation_state, unpack, split_tuple) is the real header code instantiated on a test leaf sender that completes INLINE in start() on a symbolic '
         'channel (value v / error e / stopped) and connected to a recording receiver; the oracle is the completion the composition denotes (differential). Exceptions are modelled (DESIGN 4.4).',
-        'Not covered: completions arriving later from another thread, concurrent consumers, compositions deeper than 1, split_tuple, when_all_vector, schedule_from/continues_on, require_started, unpack, '
-        'drop_operation_state, start_detached, sync_wait, any_sender; object-lifetime ledger.',
+        'Not covered: completions arriving later from another thread, concurrent consumers, compositions deeper than 1, when_all_vector, schedule_from/continues_on (placement part: C10), require_started, '
+        'start_detached, sync_wait, any_sender; object-lifetime ledger.',
     ],
     # split / ensure_started keep their continuations in type-erased unique_function objects (pointers stored in byte buffers): under a
     # symbolic schedule CBMC's points-to sets for them degrade and symex needs tens of minutes and > 8 GB -> thorough tier only
@@ -210,7 +210,7 @@ PROPS['C03'] = {
                 for n, pf, to, mem, tiers in [('when_all_two_threads', 'wac_', 2400, 14, ('quick', 'thorough')), ('split_concurrent_consumers', 'spc_', 3600, 28, ('thorough',)),
                                               ('ensure_started_concurrent', 'esc_', 3600, 28, ('thorough',))]] +
                [_c03('then_inline', 'then_'), _c03('let_value_inline', 'let_'), _c03('let_error_inline', 'lete_'), _c03('when_all_inline', 'wall_'), _c03('split_two_consumers_inline', 'split_'),
-                _c03('ensure_started_inline', 'ens_'), _c03('drop_value_inline', 'drop_')],
+                _c03('ensure_started_inline', 'ens_'), _c03('drop_value_inline', 'drop_'), _c03('drop_operation_state_inline', 'dos_'), _c03('unpack_inline', 'unp_'), _c03('split_tuple_inline', 'spt_')],
 }
 
 PROPS['C10'] = {
